@@ -4,7 +4,9 @@ package filter
 
 import (
 	"fmt"
+	"runtime"
 	"strings"
+	"sync"
 	"testing"
 
 	"github.com/mgtv-tech/redis-GunYu/pkg/vfc10"
@@ -62,7 +64,123 @@ func TestVerifC10(t *testing.T) {
 		{SW: [][]uint16{{5000, 5000}, {5000, 6000}, {5000, 5500}, {4000, 5000}}, SB: [][]uint16{{5400, 5600}, {5500}}},
 		{SW: [][]uint16{{9, 3}}, SB: [][]uint16{{16000, 65535}, {0}}},
 	}
+	vfOrderSweep(e)
 	e.SlotSweep(sweeps, vfutil.Scale(7, 1))
 	e.BraceSweep(vfutil.Scale(6, 8))
 	e.RunGenerated(r, vfutil.Scale(800, 20000), 40, 60)
+}
+
+// vfOrderSweep: one Trie implementation serves the EXACT lists (commands, Search) and the PREFIX lists (keys,
+// IsPrefixMatch). Every pair (word, longer word with that prefix) is inserted in BOTH orders into each of the four
+// lists, alone and with a third unrelated word in front / between / behind, and probed with: each word, every proper
+// prefix of the longer word, the longer word plus one byte, in the cases the list folds.
+func vfOrderSweep(e *vfc10.Env) {
+	pairs := [][2]string{{"set", "setex"}, {"incr", "incrby"}, {"incrby", "incrbyfloat"}, {"lpush", "lpushx"}, {"hset", "hsetnx"},
+		{"a", "ab"}, {"k:", "k:1:"}, {"\xc3", "\xc3\xa9"}, {"\xff", "\xff\xfe"}, {"{", "{}"}, {"x", "x"}}
+	third := "zz"
+	for _, p := range pairs {
+		orders := [][]string{{p[0], p[1]}, {p[1], p[0]}, {third, p[0], p[1]}, {p[1], third, p[0]}, {p[1], p[0], third}, {p[0]}, {p[1]}}
+		var probes []string
+		for i := 0; i <= len(p[1]); i++ {
+			probes = append(probes, p[1][:i])
+		}
+		probes = append(probes, p[1]+"x", p[1]+p[1], third, third[:1])
+		for _, o := range orders {
+			for kind := 0; kind < 4; kind++ {
+				if kind < 2 && p[1][0] >= 0x80 {
+					continue // command names are ASCII (declared assumption: Go folds case by Unicode rules, invalid UTF-8 becomes U+FFFD)
+				}
+				var c vfc10.Cfg
+				switch kind {
+				case 0:
+					c.CB = o
+				case 1:
+					c.CW = o
+				case 2:
+					c.PB = o
+				case 3:
+					c.PW = o
+				}
+				f := e.Make(c)
+				for _, q := range probes {
+					if kind < 2 {
+						e.OpCmd(c, f, q)
+						e.OpCmd(c, f, strings.ToUpper(q))
+					} else {
+						e.OpKey(c, f, []byte(q))
+					}
+				}
+				e.S.Count("order_sweep_cfgs")
+			}
+		}
+	}
+}
+
+// TestVerifC10conc: harness entry C10conc (its own go test run: the thorough tier builds it with -race)
+func TestVerifC10conc(t *testing.T) {
+	s := vfutil.NewSession("C10conc")
+	defer s.Close()
+	r := vfutil.NewRand(vfutil.Seed() ^ 0xc10c)
+	rl := vfutil.StartRaceLog("C10conc")
+	vfConcurrentReads(s, r)
+	rl.Finish(s, func() map[string]interface{} { return map[string]interface{}{"seed": vfutil.Seed()} })
+}
+
+// vfConcurrentReads: a built filter is read by every syncer goroutine at once (parser, snapshot workers): FilterKey /
+// FilterSlot / FilterCmd must be functions of (configuration, argument) alone. G goroutines on their own keys against
+// one shared filter, answers compared with the oracle; counted budget.
+func vfConcurrentReads(s *vfutil.Session, r *vfutil.Rand) {
+	const G = 8
+	c := vfc10.Cfg{SW: [][]uint16{{0, 16383}, {10, 20}, {30, 40}}, SB: [][]uint16{{100, 9000}, {200, 300}, {12001}}, PB: []string{"bad:", "b"}, PW: []string{"u:", "user:", "{"}, CB: []string{"del", "delex"}}
+	f := vfBuild(c)
+	e := &vfc10.Env{S: s, Mode: "F", Make: func(c vfc10.Cfg) vfc10.Filter { return vfBuild(c) }}
+	for i := 0; i < 200; i++ {
+		e.OpKey(c, f, vfc10.GenKey(r, c))
+	}
+	for _, w := range []string{"del", "DEL", "delex", "dele", "set", "Del"} {
+		e.OpCmd(c, f, w)
+	}
+	type q struct {
+		key            []byte
+		wk, ws, fk, fs bool
+	}
+	var mu sync.Mutex
+	var first *q
+	var wg sync.WaitGroup
+	for g := 0; g < G; g++ {
+		rr := r.Fork()
+		wg.Add(1)
+		go func() {
+			defer wg.Done()
+			for i := 0; i < vfutil.Scale(4000, 60000); i++ {
+				k := vfc10.GenKey(rr, c)
+				if rr.Chance(1, 3) {
+					k = append([]byte("u:{"), append(rr.Bytes(rr.Range(1, 600)), '}')...)
+				}
+				x := q{key: k, wk: vfc10.WantFilterKey(c, k), ws: vfc10.WantFilterSlot(c, k), fk: f.FilterKey(string(k)), fs: f.FilterSlot(string(k))}
+				cmd := vfutil.Pick(rr, []string{"del", "DEL", "delex", "dele", "set", "DELEX", "d"})
+				if f.FilterCmd(cmd) != vfc10.WantFilterCmd(c, cmd) {
+					x.key = []byte("FilterCmd:" + cmd)
+					x.fk = !x.wk
+				}
+				if x.wk != x.fk || x.ws != x.fs {
+					mu.Lock()
+					if first == nil {
+						first = &x
+					}
+					mu.Unlock()
+					return
+				}
+				if i%64 == 0 {
+					runtime.Gosched()
+				}
+			}
+		}()
+	}
+	wg.Wait()
+	s.Add("concurrent_filter_reads", G*vfutil.Scale(4000, 60000))
+	if first != nil {
+		s.Violate("concurrent-filter", fmt.Sprintf("with %d goroutines reading one filter: FilterKey(%q)=%v want %v, FilterSlot=%v want %v (slot %d): the decision depends on concurrent callers", G, first.key, first.fk, first.wk, first.fs, first.ws, vfc10.HashSlot(first.key)),
+			map[string]interface{}{"cfg": c.Fields(), "key_hex": vfutil.Hex(first.key), "got_fk": first.fk, "want_fk": first.wk, "got_fs": first.fs, "want_fs": first.ws, "goroutines": G})
+	}
 }
